@@ -16,7 +16,7 @@ CLAIMED = {
  "C13": ("metamorphic property-based testing (insert unknown/GREASE elements, compare known-element sequence), three decoding paths; raw-peer insertions against the running driver (end-to-end)",
          "Exploration: generated valid exchanges are decoded with and without generated insertions (GREASE / unknown frame types of every varint width, payloads that look like frames, unknown setting ids); the sequence of known elements and the final read position must be identical.",
          "Insertions are restricted to what the RFCs allow on the stream in question.", "DESIGN.md §5 C13"),
- "C14": ("round-trip property-based testing with exact-size and cross-implementation (reference codec) oracles; exhaustive integers below 2^24 (quick) / 2^30 (thorough), all payload lengths 0..4096; both build profiles",
+ "C14": ("round-trip property-based testing with exact-size and cross-implementation (reference codec) oracles; exhaustive integers below 2^24 (quick) / 2^30 (thorough), all payload lengths 0..4096; both build profiles; plus the wtransport-level datagram wrapper (size query / encoder / decoder) through the verif-hooks re-exports",
          "Exploration with exhaustive sub-domains: decode(encode(v)) == v, bytes consumed == bytes written == size query, shortest integer form (equality with the reference encoder), too-small destinations untouched, reference decodes implementation output and vice versa.",
          "Trusts refcodec and the httlib-huffman table.", "DESIGN.md §5 C14"),
  "C15": ("differential property-based testing between the library's one-shot, buffered and asynchronous decoders under generated chunk and Pending plans (scripted AsyncRead, manual executor); prefix and extension metamorphic relations",
